@@ -30,9 +30,20 @@ def method_bodies(F, impl, name):
 
 def key_kind(F, X, e):
     """('state'|'attempt'|'?', hash_expr, id_expr) for a key expression"""
+    import model_keys as mk
+    comps = mk.components(F, X, e)
+    if comps:
+        consts = {v for k, v in comps if k == "lit"}
+        hexes = [v for k, v in comps if k == "hex"]
+        kind = "state" if "state" in consts and "attempts" not in consts else ("attempt" if "attempts" in consts else "?")
+        idx = None
+        if kind == "attempt":
+            i = [k for k, (c0, c1) in enumerate(comps) if c0 == "lit" and c1 == "attempts"][-1]
+            idx = comps[i + 1][1] if i + 1 < len(comps) and comps[i + 1][0] != "lit" else None
+        return kind, (hexes[0] if hexes else None), idx, consts, bool(hexes)
     for a in alts(e):
         if a[0] == "call":
-            b = F.by_cdef.get(a[1])
+            b = F.by_cdef.get(a[4].resolved or a[1])
             if b is not None:
                 consts = set()
                 for c in b.calls:
